@@ -11,8 +11,8 @@ import (
 
 // HistPlan is one single-goroutine history from a cold start.
 type HistPlan struct {
-	Source   string    `json:"source"`             // hook | real | preinit
-	Dev      *plan.Dev `json:"dev,omitempty"`      // armed once for the whole process (ops then carry no device of their own)
+	Source   string    `json:"source"`        // hook | real | preinit
+	Dev      *plan.Dev `json:"dev,omitempty"` // armed once for the whole process (ops then carry no device of their own)
 	Ops      []plan.Op `json:"ops"`
 	Identity bool      `json:"identity,omitempty"` // re-read the identity of the source after every step
 	Hold     bool      `json:"hold,omitempty"`     // keep returned values and caller buffers and re-inspect them after every later step
